@@ -36,6 +36,8 @@ def spell(items):
             out.append('"a\\"b"')
         elif t == 'STRL':
             out.append('"glob1: b"')
+        elif t == 'STRT':
+            out.append('"a\tb"')
         elif t == 'REF':
             out.append({'g1': 'glob1', 'l1': '.loc1'}.get(a, 'glob2'))
         elif t == 'DIR':
@@ -59,6 +61,12 @@ def spell(items):
 
 def evaluate(e):
     text = spell(e['items'])
+    if len(text) % 3 == 0:
+        text = text.rstrip('\n')         # the last line of a file need not end with a newline
+    return _evaluate_text(e, text)
+
+
+def _evaluate_text(e, text):
     case = {'config': carrier_yaml(symbols=[('MODE', 'fast')]), 'files': {'main.asm': text}}
     obs = runner.run_case(case)
     want = bytes(e['bytes'])
